@@ -103,6 +103,21 @@ def work(ctx, tier):
             _one(ctx, sc, e, stats)
         ctx.inc("start_hook_abort_scenarios")
     common.crossing_slice(ctx, tier, common.rng_for(ctx, "crossing"), lambda sc, e: _one(ctx, sc, e, stats), entries=entries)
+    # degenerate configuration max_attempts=0: execute() still returns an outcome, and a failed outcome says why retries stopped
+    for e in rig.EXECUTE_ENTRIES:
+        if hash(e) % ctx.nshards != ctx.shard:
+            continue
+        for tl in (False, True):
+            sc = {"cfg": gen.mk_cfg(max_attempts=0), "place": gen.default_place(), "bs_kind": "sync", "sleeper_kind": "async", "timeline": tl, "poll": False, "calls": [gen.mk_call([["ok"]])], "fault": None}
+            recs, h, w = rig.run(sc, e)
+            ctx.inc("runs")
+            ctx.inc("calls")
+            ctx.inc("zero_attempt_runs")
+            kind, val = recs[0].final
+            if kind != "return":
+                ctx.viol("execute-raised:" + type(val).__name__, f"[{e}] max_attempts=0: execute() raised {val!r}", common.payload(sc, e, 0))
+            elif val.ok or val.attempts != 0 or val.stop_reason is None or val.value is not None:
+                ctx.viol("outcome-wrong-stop-reason" if val.stop_reason is None else "outcome-wrong-attempts", f"[{e}] max_attempts=0: outcome ok={val.ok} attempts={val.attempts} stop_reason={val.stop_reason} value={val.value!r}: a failed outcome must say why retries stopped", common.payload(sc, e, 0))
     # whole calls racing in threads on shared components (budget, one adaptive() strategy object): execute() still returns an outcome
     tconc.thread_slice(ctx, tier, common.rng_for(ctx, "threads"), ["escape", "identity"], budget=True, breaker=False, components=True)
     if ctx.shard == 0:
